@@ -35,13 +35,33 @@ class SeamBypassed(BaseException):
     a violation.  (BaseException: must not be swallowed by the code under test.)"""
 
 
+class _NulByte(ValueError):
+    """what the real os functions raise for a path with a NUL (intended model behaviour)"""
+
+
+def crash_origin(e):
+    """An internal error that was raised by harness code (innermost frame inside /verif/vf)
+    is a defect of the harness, not an outcome of gemato: turn it into a harness error."""
+    tb = e.__traceback__
+    last = None
+    while tb is not None:
+        last = tb
+        tb = tb.tb_next
+    if last is not None and not isinstance(e, _NulByte):
+        fn = last.tb_frame.f_code.co_filename
+        if '/vf/' in fn and '/gemato/' not in fn:
+            raise SeamBypassed(f'harness defect: {type(e).__name__}: {e} raised in '
+                               f'{fn}:{last.tb_lineno}') from e
+    return 'crash:' + type(e).__name__
+
+
 class FuelExhausted(Exception):
     """The model walk produced more directories than any terminating walk could."""
 
 
 class Node:
     __slots__ = ('kind', 'dev', 'ino', 'size', 'st_size', 'mtime', 'digest', 'children',
-                 'target', 'entries', 'invalid', 'signed', 'is_manifest', 'unreadable')
+                 'target', 'entries', 'invalid', 'signed', 'is_manifest', 'unreadable', 'text')
 
     def __init__(self, kind, dev=1, ino=0):
         self.kind = kind
@@ -58,6 +78,7 @@ class Node:
         self.signed = False
         self.is_manifest = False
         self.unreadable = None   # errno raised by open()
+        self.text = None         # lines written by the real dump() (render mode only)
 
 
 _MODE = {
@@ -190,6 +211,7 @@ class ModelFS:
         self.sysroot = None           # optional node standing for '/'
         self.dump_args = []           # (path, sign_openpgp as passed, keyid) per dump
         self.render = False           # run the real dump() (text rendering) in model runs
+        self.ndumps, self.dump_fault_at, self.dump_fault_fired = 0, None, None
         self.disk_size_of = {}        # logical Manifest path -> size on disk when compressed
         self._wtok = 0
         self.walk_fuel = walk_fuel
@@ -320,7 +342,7 @@ class ModelFS:
     @_ut
     def os_open(self, path, flags):
         if '\0' in path:
-            raise ValueError('embedded null byte')      # what the real os.open does
+            raise _NulByte('embedded null byte')      # what the real os.open does
         self._tick('open', path)
         node = self.lookup(path)
         if node is None:
@@ -339,7 +361,7 @@ class ModelFS:
     @_ut
     def os_stat(self, path):
         if '\0' in path:
-            raise ValueError('embedded null byte')
+            raise _NulByte('embedded null byte')
         self._tick('stat', path)
         node = self.lookup(path)
         if node is None:
@@ -367,6 +389,18 @@ class ModelFS:
             raise FileNotFoundError(errno.ENOENT, 'No such file or directory', path)
         self.log.append(('unlink', path))
         del par.children[name]
+
+    def os_replace(self, src, dst):
+        """rename(2) within the model: the node moves, an existing file at dst is replaced"""
+        spar, sname = self._parent(src, create=False)
+        if sname not in spar.children:
+            raise FileNotFoundError(errno.ENOENT, 'No such file or directory', src)
+        dpar, dname = self._parent(dst, create=False)
+        old = dpar.children.get(dname)
+        if old is not None and old.kind == 'dir':
+            raise IsADirectoryError(errno.EISDIR, 'Is a directory', dst)
+        self.log.append(('replace', src, dst))
+        dpar.children[dname] = spar.children.pop(sname)
 
     def os_walk(self, top, topdown=True, onerror=None, followlinks=False):
         """The documented protocol of os.walk: top-down, the caller may prune `dirnames`
@@ -422,7 +456,7 @@ class ModelFS:
     def open_manifest(self, path, mode, **kw):
         assert 'encoding' in kw or 'b' in mode
         if '\0' in path:
-            raise ValueError('embedded null byte')      # what the real open() does
+            raise _NulByte('embedded null byte')      # what the real open() does
         if 'r' in mode:
             self._tick('open', path)
             node = self.lookup(path)
@@ -501,7 +535,7 @@ class _PathProxy:
         fs = cur()
         try:
             if '\0' in path:
-                raise ValueError('embedded null byte')
+                raise _NulByte('embedded null byte')
             fs._tick('stat', path)
             return fs.lookup(path, follow)
         except (OSError, ValueError):
@@ -558,6 +592,12 @@ class _OsProxy:
     @staticmethod
     def walk(top, topdown=True, onerror=None, followlinks=False):
         return cur().os_walk(top, topdown, onerror, followlinks)
+
+    @staticmethod
+    def replace(src, dst):
+        return cur().os_replace(src, dst)
+
+    rename = replace
 
     @staticmethod
     def lstat(path):
@@ -662,22 +702,100 @@ def _m_dump(mf, f, sign_openpgp=None, openpgp_keyid=None, openpgp_env=None, sort
         return _REAL_DUMP(mf, f, sign_openpgp, openpgp_keyid, openpgp_env, sort)
     f.fs.dump_args.append((f.path, sign_openpgp, openpgp_keyid))
     f.dumped = True
+    _dump_fault(f)
     if sign_openpgp is None:
         sign_openpgp = mf.openpgp_signed
+    n0 = len(f.lines)
     if RENDER[0] or f.fs.render:
         # the real dump does the sorting and renders every entry (to_list/join)
         _REAL_DUMP(mf, f, sign_openpgp=False, sort=sort)
-    elif sort:
-        # rendering skipped (str() of symbolic sizes is expensive and nothing reads the
-        # text); the order is still produced by the entries' own __lt__ as in the real
-        # dump.  dump itself is decided on the real code in C08/C12/C14.
-        mf.entries = sorted(mf.entries)
-    _snapshot(mf, f, sign_openpgp, openpgp_keyid)
+        order = _order_from_text(mf, f.lines[n0:])
+        f.node.text = [*f.lines[n0:]]
+    else:
+        # the real dump runs as well - its sorting (in place or not), its iteration and its
+        # writes are the real code - but every entry renders as a token naming the object
+        # (str() of symbolic sizes is expensive and nothing reads the text here; rendering
+        # is decided on the real code in C08/C12/C14)
+        order = _token_dump(mf, f, sort)
+    _snapshot(f, order, sign_openpgp, openpgp_keyid)
 
 
 @_ut
-def _snapshot(mf, f, sign_openpgp, openpgp_keyid):
-    f.node.entries = [copy_entry(e) for e in mf.entries]
+def _dump_fault(f):
+    """fault plan for the save step: the k-th dump of the run fails with ENOSPC before it
+    has written anything (disk full)"""
+    fs = f.fs
+    k = fs.ndumps
+    fs.ndumps = k + 1
+    if fs.dump_fault_at is not None and sym.eq(fs.dump_fault_at, k):
+        fs.dump_fault_fired = f.path
+        raise OSError(errno.ENOSPC, 'No space left on device (injected)', f.path)
+
+
+_ENTRY_CLASSES = tuple({*g_manifest.MANIFEST_TAG_MAPPING.values()})
+
+
+@_ut
+def _tokens_install(mf):
+    ents = [*mf.entries]
+    index = {id(e): i for i, e in enumerate(ents)}
+
+    def tok(self):
+        return ['@%d' % index[id(self)]]
+    saved = [(cls, cls.__dict__.get('to_list', _tokens_install)) for cls in _ENTRY_CLASSES]
+    for cls in _ENTRY_CLASSES:
+        cls.to_list = tok
+    return ents, saved
+
+
+@_ut
+def _tokens_restore(saved):
+    for cls, fn in saved:
+        if fn is _tokens_install:
+            del cls.to_list
+        else:
+            cls.to_list = fn
+
+
+@_ut
+def _tokens_order(ents, lines):
+    out = []
+    for ln in lines:
+        if not (ln.startswith('@') and ln.endswith('\n') and ln[1:-1].isdigit()):
+            raise SeamBypassed('ManifestFile.dump wrote something that is not an entry line')
+        out.append(ents[int(ln[1:-1])])
+    return out
+
+
+def _token_dump(mf, f, sort):
+    n0 = len(f.lines)
+    ents, saved = _tokens_install(mf)
+    try:
+        _REAL_DUMP(mf, f, sign_openpgp=False, sort=sort)
+    finally:
+        _tokens_restore(saved)
+    return _tokens_order(ents, f.lines[n0:])
+
+
+@_ut
+def _order_from_text(mf, lines):
+    """entries in the order of the lines the real dump wrote (concrete values only)"""
+    pool = [(' '.join(e.to_list()) + '\n', e) for e in mf.entries]
+    out = []
+    for ln in lines:
+        for i, (text, e) in enumerate(pool):
+            if text == ln:
+                out.append(e)
+                del pool[i]
+                break
+        else:
+            raise SeamBypassed('ManifestFile.dump wrote a line that renders no entry')
+    return out
+
+
+@_ut
+def _snapshot(f, order, sign_openpgp, openpgp_keyid):
+    f.node.entries = [copy_entry(e) for e in order]
     f.node.signed = bool(sign_openpgp)
     f.fs.log.append(('dump', f.path, bool(sign_openpgp), openpgp_keyid))
 
